@@ -11,9 +11,6 @@ open PS.C11 (Lbl Val mkSem decodeProg decodeVal)
 abbrev Prog := Tree Lbl
 abbrev Cache := PS.C11.Cache Lbl Val
 
-def dslEv (S : PS.C11.Sem Lbl Val String) (useCache : Bool) : Ev Cache Prog (List Val) Val String :=
-  ⟨fun c p i => PS.C11.eval S useCache c p i⟩
-
 partial def progStr : Prog → String
   | .node (.prim n) [] => n
   | .node (.var i) [] => "var" ++ toString i
